@@ -123,3 +123,24 @@ Theorem C18_next_action_enabled :
   forall c s t f, exists s', step c s t (next_action c s t f) = Some s'.
 Proof. exact next_action_enabled. Qed.
 Print Assumptions C18_next_action_enabled.
+
+(* Finding FG1 (recorded, not repaired).  "Every result equals the sequential result" fails for
+   non-deterministic Marshal: a reader that publishes a lazy field between Marshal's size pass and
+   append pass makes the size check fail when the field's raw encoding is not as long as its
+   re-encoding.  Refuted by the witness the harness replays (raw 10 bytes, re-encoded 7); it holds
+   outside the recogniser [excl_FG1] (the same predicate the harness uses: non-canonical lazy
+   field), and always holds sequentially. *)
+Theorem C18_marshal_concurrent_reader_refuted :
+  exists raw enc s a, passes_possible s a = true /\ marshal_size_check raw enc s a = false.
+Proof. exact marshal_concurrent_reader_refuted. Qed.
+Print Assumptions C18_marshal_concurrent_reader_refuted.
+
+Theorem C18_marshal_concurrent_reader_except_FG1 :
+  forall raw enc s a, excl_FG1 raw enc = false -> marshal_size_check raw enc s a = true.
+Proof. exact marshal_concurrent_reader_except_FG1. Qed.
+Print Assumptions C18_marshal_concurrent_reader_except_FG1.
+
+Theorem C18_marshal_sequential_ok :
+  forall raw enc s, marshal_size_check raw enc s s = true.
+Proof. exact marshal_sequential_ok. Qed.
+Print Assumptions C18_marshal_sequential_ok.
